@@ -1,6 +1,7 @@
 package main
 
 import (
+	"os"
 	"fmt"
 	"sort"
 	"strings"
@@ -17,6 +18,20 @@ type subgoal struct {
 func (ex *Exec) splitGoal(g *Term, hyps []*Term, out *[]subgoal) {
 	if g == True {
 		return
+	}
+	// a quantified conjunct of the goal that is literally one of the
+	// hypotheses (typically: the callee just ensured it) holds whenever that
+	// hypothesis' guard does
+	if ex.knownHyps != nil && !g.IsSym && hasQuantStrict(g) && (g.Op == "forall" || g.Op == "=>") {
+		if os.Getenv("VERIF_DBGKNOWN") != "" && g.Op == "forall" {
+			if _, ok := ex.knownHyps[g.Canon()]; !ok {
+				fmt.Fprintf(os.Stderr, "UNMATCHED %s\n", truncate(g.Canon(), 300))
+			}
+		}
+		if gd, ok := ex.knownHyps[g.Canon()]; ok && (gd == True || (ex.knownPath != nil && gd.String() == ex.knownPath.String())) {
+			statKnownHits++
+			return
+		}
 	}
 	if !g.IsSym {
 		switch g.Op {
@@ -153,6 +168,8 @@ func (ex *Exec) engineAxioms(used map[string]bool) string {
 	}
 	return sb.String()
 }
+
+var statKnownHits int
 
 type dbAxiom struct {
 	name string
@@ -478,4 +495,42 @@ func qfWeaken(t *Term) *Term {
 		return Imp(t.Args[0], qfWeaken(t.Args[1]))
 	}
 	return True
+}
+
+// knownConjuncts: the quantified conjuncts asserted (possibly under a
+// quantifier-free guard) among the hypotheses of an obligation.
+func (ex *Exec) knownConjuncts(o *Obligation) map[string]*Term {
+	known := map[string]*Term{}
+	var add func(t *Term, guard *Term, depth int)
+	add = func(t *Term, guard *Term, depth int) {
+		if t.IsSym || depth > 4 || !hasQuantStrict(t) {
+			return
+		}
+		switch t.Op {
+		case "and":
+			for _, a := range t.Args {
+				add(a, guard, depth+1)
+			}
+			return
+		case "=>":
+			if !hasQuantStrict(t.Args[0]) {
+				add(t.Args[1], And(guard, t.Args[0]), depth+1)
+			}
+		}
+		if t.Op == "forall" || t.Op == "=>" {
+			k := t.Canon()
+			// prefer an unguarded occurrence, then one guarded by the obligation's own path
+			if old, dup := known[k]; !dup || (old != True && (guard == True || (o.Path != nil && guard.String() == o.Path.String()))) {
+				known[k] = guard
+			}
+		}
+	}
+	n := o.NAxioms
+	if n > len(ex.axioms) {
+		n = len(ex.axioms)
+	}
+	for _, a := range ex.axioms[:n] {
+		add(a, True, 0)
+	}
+	return known
 }
